@@ -1,12 +1,13 @@
 (* PEXEC -- the Pandas executor of data_algebra, transcribed step by step, refines the reference semantics.
 
-   Model/PandasExec.v (`pexec_gen srt q p e`, `pexec` = the same with the stable sort) transcribes every `_*_step` of
+   Model/PandasExec.v (`pexec_gen srt arr q p e`, `pexec` = the same with the stable sort and the left-major inner merge) transcribes every `_*_step` of
    /repo/data_algebra/pandas_base.py over the hand models of the pandas primitives it calls (Model/PdPrim.v).  The trusted
    boundary of "Pandas computes sem_gen fl_pandas" moves from the whole executor to those primitives, to scalar expression
    evaluation (Sem.eval_expr fl_pandas) and to the window / aggregate functions (Sem.win_fn / agg_fn fl_pandas).
 
    srt is the sorting routine behind DataFrame.sort_values: the theorems hold for EVERY routine that returns a sorted permutation
-   (sorter_ok) -- pandas' single-key sort is not stable.  q records whether table_is_keyed_by_columns groups with dropna=True.
+   (sorter_ok) -- pandas' single-key sort is not stable.  arr is the order in which pandas.merge lists the rows of an INNER join: the
+   theorems hold for EVERY rearrangement (arranger_ok: a permutation) -- pandas 3 runs a hash join there.  q records whether table_is_keyed_by_columns groups with dropna=True.
    wf_op_b p is what the builders guarantee (Model/PandasExec.v); total_orders / exact_group_keys are C18's premises (a window
    running an order-sensitive function orders each partition strictly, a limited order_rows is total, group keys have one
    representation per value), decidable by Model/PermGuard.perm_guard_b. *)
@@ -15,7 +16,7 @@ Import ListNotations.
 From DA Require Import Base.PyRT Base.Val Model.Sem Model.PdPrim Model.PandasExec Model.PermGuard
   Proofs.SemBasicP Proofs.SemOrderP Proofs.PermP3 Proofs.PermP4 Proofs.ComposeP5
   Proofs.PandasExecP1 Proofs.PandasExecP2 Proofs.PandasExecP3 Proofs.PandasExecP4 Proofs.PandasExecP5 Proofs.PandasExecP6
-  Proofs.PandasExecP7 Proofs.PandasExecP8 Proofs.PandasExecEx.
+  Proofs.PandasExecP7 Proofs.PandasExecP8 Proofs.PandasExecP9 Proofs.PandasExecEx.
 Local Open Scope string_scope.
 Local Open Scope list_scope.
 
@@ -23,9 +24,9 @@ Local Open Scope list_scope.
 (* Whenever the transcribed executor returns a frame t, the reference semantics under the Pandas conventions is defined, t has
    exactly its columns (as a set; they are pairwise distinct), and the rows of t, read BY NAME in the reference column order, are a
    permutation of the reference rows.  Column ORDER and row ORDER are not claimed: they differ (see the _refuted witnesses). *)
-Theorem PEXEC_refines_sem : forall (srt : sorter) (q : pquirks) (p : op) (e : env) (t : table),
-  sorter_ok srt -> wf_op_b p = true -> total_orders fl_pandas p e -> exact_group_keys fl_pandas p e ->
-  pexec_gen srt q p e = Some t ->
+Theorem PEXEC_refines_sem : forall (srt : sorter) (arr : arranger) (q : pquirks) (p : op) (e : env) (t : table),
+  sorter_ok srt -> arranger_ok arr -> wf_op_b p = true -> total_orders fl_pandas p e -> exact_group_keys fl_pandas p e ->
+  pexec_gen srt arr q p e = Some t ->
   exists t', sem_gen fl_pandas p e = Some t' /\ (forall c, In c (cols t) <-> In c (cols t')) /\ NoDup (cols t') /\
              Permutation (rows (sem_select_cols (cols t') t)) (rows t').
 Proof. exact pexec_refines_sem_cells. Qed.
@@ -37,16 +38,16 @@ Theorem PEXEC_refines_sem_checked : forall (q : pquirks) (p : op) (e : env) (t :
   exists t', sem_gen fl_pandas p e = Some t' /\ (forall c, In c (cols t) <-> In c (cols t')) /\ NoDup (cols t') /\
              Permutation (rows (sem_select_cols (cols t') t)) (rows t').
 Proof.
-  exact (fun q p e t W G H => pexec_refines_sem_cells stable_sorter q p e t stable_sorter_ok W
+  exact (fun q p e t W G H => pexec_refines_sem_cells stable_sorter id_arranger q p e t stable_sorter_ok id_arranger_ok W
            (proj1 (perm_guard_b_sound fl_pandas p e G)) (proj2 (perm_guard_b_sound fl_pandas p e G)) H).
 Qed.
 Print Assumptions PEXEC_refines_sem_checked.
 
 (* the refinement relation itself (row-for-row equal cells against a table with the reference columns and a permutation of the
    reference rows), as used by the induction; coordinators can chain it with `refines_trans` *)
-Theorem PEXEC_refines_relation : forall (srt : sorter) (q : pquirks) (p : op) (e : env) (t : table),
-  sorter_ok srt -> wf_op_b p = true -> total_orders fl_pandas p e -> exact_group_keys fl_pandas p e ->
-  pexec_gen srt q p e = Some t ->
+Theorem PEXEC_refines_relation : forall (srt : sorter) (arr : arranger) (q : pquirks) (p : op) (e : env) (t : table),
+  sorter_ok srt -> arranger_ok arr -> wf_op_b p = true -> total_orders fl_pandas p e -> exact_group_keys fl_pandas p e ->
+  pexec_gen srt arr q p e = Some t ->
   exists t', sem_gen fl_pandas p e = Some t' /\ refines t t' /\ width_ok t.
 Proof. exact pexec_refines_sem. Qed.
 Print Assumptions PEXEC_refines_relation.
@@ -117,21 +118,22 @@ Theorem PEXEC_project_step_refines : forall q ops gb t u,
 Proof. exact px_project_refines. Qed.
 Print Assumptions PEXEC_project_step_refines.
 (* natural_join: suffix, scratch key for an empty `on` (also CROSS), the null-key marker (since /repo af27aca null keys match
-   nothing), merge, the coalescing loop over every suffixed copy merge produced (since 756a9c2), dropped scratch columns *)
-Theorem PEXEC_join_step_refines : forall declared on_a on_b jt l r x,
-  width_ok l -> width_ok r ->
+   nothing), merge (an inner merge lists its rows in any order), the coalescing loop over every suffixed copy merge produced (since
+   756a9c2), dropped scratch columns *)
+Theorem PEXEC_join_step_refines : forall arr declared on_a on_b jt l r x,
+  arranger_ok arr -> width_ok l -> width_ok r ->
   (forall c, In c on_a -> In c (cols l)) -> (forall c, In c on_b -> In c (cols r)) -> List.length on_a = List.length on_b ->
   (forall c, In c declared <-> In c (cols l ++ filter (fun c => negb (mem c (cols l))) (cols r))) ->
-  px_join declared on_a on_b jt l r = Some x -> refines x (sem_join false on_a on_b jt l r) /\ width_ok x.
-Proof. exact px_join_refines. Qed.
+  px_join_with arr declared on_a on_b jt l r = Some x -> refines x (sem_join false on_a on_b jt l r) /\ width_ok x.
+Proof. exact px_join_with_refines. Qed.
 Print Assumptions PEXEC_join_step_refines.
 
 (* ---------------------------------------------------------------- no scratch column survives *)
 (* no premise on the data: whatever the executor returns has exactly the declared columns (every scratch column it added is gone) *)
-Theorem PEXEC_no_scratch_column_survives : forall (srt : sorter) (q : pquirks) (p : op) (e : env) (t : table),
-  sorter_ok srt -> wf_op_b p = true -> pexec_gen srt q p e = Some t ->
+Theorem PEXEC_no_scratch_column_survives : forall (srt : sorter) (arr : arranger) (q : pquirks) (p : op) (e : env) (t : table),
+  sorter_ok srt -> arranger_ok arr -> wf_op_b p = true -> pexec_gen srt arr q p e = Some t ->
   (forall c, In c (cols t) <-> In c (column_names p)) /\ width_ok t.
-Proof. exact (fun srt q p e t So W H => pexec_shape srt q p So e t W H). Qed.
+Proof. exact (fun srt arr q p e t So Ao W H => pexec_shape srt arr q p So Ao e t W H). Qed.
 Print Assumptions PEXEC_no_scratch_column_survives.
 (* ---------------------------------------------------------------- the chosen scratch names never capture a user column *)
 (* since /repo c06ea4b: _unused_column_name returns none of the names in use, the join suffix makes no suffixed shared name a name in
@@ -163,11 +165,11 @@ Qed.
 Print Assumptions PEXEC_scratch_names_never_capture.
 
 (* ---------------------------------------------------------------- join: shared columns are COALESCE(left, right) *)
-Theorem PEXEC_join_coalesce : forall declared on_a on_b jt l r x,
-  width_ok l -> width_ok r ->
+Theorem PEXEC_join_coalesce : forall arr declared on_a on_b jt l r x,
+  arranger_ok arr -> width_ok l -> width_ok r ->
   (forall c, In c on_a -> In c (cols l)) -> (forall c, In c on_b -> In c (cols r)) -> List.length on_a = List.length on_b ->
   (forall c, In c declared <-> In c (cols l ++ filter (fun c => negb (mem c (cols l))) (cols r))) ->
-  px_join declared on_a on_b jt l r = Some x ->
+  px_join_with arr declared on_a on_b jt l r = Some x ->
   forall row, In row (rows x) ->
     exists p, In p (sem_pairs (join_match false (cols l) (cols r) on_a on_b) (how_of jt) (rows l) (rows r)) /\
               (forall ra, fst p = Some ra -> In ra (rows l)) /\ (forall rb, snd p = Some rb -> In rb (rows r)) /\
@@ -232,3 +234,5 @@ Example PEXEC_premises_satisfiable :
 Proof. exact ex_all_premises. Qed.
 Example PEXEC_sorter_exists : sorter_ok stable_sorter.
 Proof. exact stable_sorter_ok. Qed.
+Example PEXEC_arranger_exists : arranger_ok id_arranger.
+Proof. exact id_arranger_ok. Qed.
